@@ -297,15 +297,41 @@ def lex_chunk(cfg, chunk):
     return out
 
 
+def lex_line_c(l):
+    per = [lex_chunk(CFG_C, ch) for ch in l]
+    flat = [t for c in per for t in c]
+    if len(flat) >= 2 and flat[0] == [("ch", "#")] and flat[1] == [("ch", c) for c in "include"]:
+        n, rest = 2, []
+        for c in per:
+            if n >= len(c):
+                n -= len(c)
+                continue
+            rest.append([x for t in c[n:] for x in t])
+            n = 0
+        return flat[:2] + [t for t in rest if t]
+    if len(flat) >= 2 and flat[0] == [("ch", "#")] and flat[1] == [("ch", c) for c in "define"]:
+        n, rest = 2, []
+        for c in per:
+            if n >= len(c) and not rest:
+                n -= len(c)
+                continue
+            rest.append(c[n:] if not rest else c)
+            n = 0
+        if rest and len(rest[0]) >= 2 and rest[0][1] == [("ch", "(")]:
+            rest[0] = [rest[0][0] + rest[0][1]] + rest[0][2:]
+        return flat[:2] + [t for c in rest for t in c]
+    return flat
+
+
 def _lower(c):
     return chr(ord(c) + 32) if "A" <= c <= "Z" else c
 
 
 def refine(lang, lines):
     if lang == "f":
-        return [[t for ch in l for t in lex_chunk(CFG_C, ch)] if l and l[0][0] == ("ch", "#") else
+        return [lex_line_c(l) if l and l[0][0] == ("ch", "#") else
                 [t for ch in l for t in lex_chunk(CFG_F, [(k, _lower(c) if k == "ch" else c) for k, c in ch])] for l in lines]
-    lexed = [[t for ch in l for t in lex_chunk(CFG_C, ch)] for l in lines]
+    lexed = [lex_line_c(l) for l in lines]
     res = []
     for l in reversed(lexed):
         isdir = bool(l) and l[0][0] == ("ch", "#")
@@ -846,7 +872,7 @@ def lexer_correspondence(ctx, lean_ok, file_texts, thorough):
             if len(f) == 3 and f[0] == "lex":
                 cases.append((f[1], common.dec(f[2])))
     alpha = {"c": "a/*\"'\\\n ;", "f": "a!&'\"\n ;x"}                      # comment / literal / continuation structure
-    talpha = {"c": "a1.e+-<=>#:%\" \n", "f": "aE1.+-*/(=:#' \n"}                 # token structure
+    talpha = {"c": "a1.e+-<=>#:%\" \n(", "f": "aE1.+-*/(=:#' \n"}                 # token structure
     n = 5 if thorough else 4
     for lang in ("c", "f"):
         for k in range(0, n + 1):
@@ -858,6 +884,13 @@ def lexer_correspondence(ctx, lean_ok, file_texts, thorough):
         for _ in range(6000 if thorough else 1500):
             k = r.randrange(5, 60)
             cases.append((lang, "".join(r.choice(alpha[lang] + talpha[lang] + "ab =\t(_$D") for _ in range(k))))
+    # preprocessor directive lines (header names, function-like macro definitions), in C and inside Fortran sources
+    words = ["#", "define", "include", "F", "(", "x", ")", " ", "<", "a.h", ">", "\n"]
+    for k in range(1, 6 if thorough else 5):
+        for w in itertools.product(words, repeat=k):
+            cases.append(("c", "".join(w)))
+            if k < 4:
+                cases.append(("f", "".join(w)))
     nreal = 0
     for lang, text in file_texts:
         cases.append((lang, text))
@@ -908,7 +941,7 @@ def _segments(lines):
 
 
 def _asm(path, incs, cxx, vdir):
-    cmd = ["g++" if cxx else "gcc", "-S", "-w", "-O0", "-o", "-", path] + ["-I" + i for i in incs]
+    cmd = ["g++" if cxx else "gcc", "-S", "-w", "-O1", "-o", "-", path] + ["-I" + i for i in incs]
     p = subprocess.run(cmd, stdout=subprocess.PIPE, stderr=subprocess.PIPE, text=True, timeout=300, cwd=vdir)
     if p.returncode != 0:
         return None
